@@ -3,10 +3,13 @@
 package main
 
 import (
+	"fmt"
 	"os"
 	"path/filepath"
 	"sort"
 	"strings"
+	"unicode"
+	"unicode/utf8"
 )
 
 type input struct {
@@ -65,6 +68,41 @@ var synthWords = []string{"the", "software", "is", "provided", "as", "license", 
 	";", ">", "|", "%", "whilst", "organisation", "É", "ǅ", "İ", "ſ", "K", "ß", "日本語", "x y", " ", "\u0085",
 	"lesser", "library", "gnu", "general", "public", "version", "apache", "bsd", "Copyright", "COPYRIGHT", "All", "rights", "reserved."}
 
+// entityNames: named character references whose names cover the alphabet, in several casings
+var entityNames = []string{"szlig", "SZLIG", "zeta", "Zeta", "ZETA", "eacute", "Eacute", "EACUTE", "ouml", "Ouml", "yacute", "thorn", "THORN",
+	"aelig", "AElig", "ccedil", "ntilde", "oslash", "Oslash", "zwnj", "quot", "QUOT", "amp", "AMP", "apos", "lt", "gt", "hellip", "mdash",
+	"nbsp", "copy", "COPY", "reg", "sect", "para", "micro", "times", "Omega", "omega", "kappa", "Kappa", "xi", "psi", "chi", "phi", "upsilon",
+	"theta", "lambda", "beta", "gamma", "delta", "fnof", "weierp", "bull", "hearts", "jcy", "Jcy", "varphi", "igrave", "Igrave", "dagger", "Dagger"}
+
+// lengthChangingRunes: code points whose lower-case form has a different UTF-8 length (from the running unicode tables)
+var lengthChangingRunes = func() []rune {
+	var out []rune
+	for r := rune(0x80); r <= unicode.MaxRune; r++ {
+		if l := unicode.ToLower(r); l != r && utf8.RuneLen(l) != utf8.RuneLen(r) {
+			out = append(out, r)
+		}
+	}
+	return out
+}()
+
+// entityWord: a word written (partly) with character references: named ones in any casing, numeric ones for
+// letters whose lower-case form changes length, glued to ordinary letters
+func entityWord(r *rng) string {
+	pre := r.pick([]string{"", "", "stra", "caf", "na", "x", "Re"})
+	post := r.pick([]string{"", "", "e", "ve", "s", "X"})
+	switch r.intn(5) {
+	case 0, 1:
+		return pre + "&" + entityNames[r.intn(len(entityNames))] + ";" + post
+	case 2:
+		c := lengthChangingRunes[r.intn(len(lengthChangingRunes))]
+		return pre + fmt.Sprintf(r.pick([]string{"&#%d;", "&#x%x;", "&#X%X;"}), c) + post
+	case 3:
+		return pre + string(lengthChangingRunes[r.intn(len(lengthChangingRunes))]) + post
+	default:
+		return pre + fmt.Sprintf("&#%d;", 65+r.intn(26)) + post + fmt.Sprintf("&#x%x;", 0xc0+r.intn(30))
+	}
+}
+
 var synthSeps = []string{" ", " ", " ", "  ", "\t", "\n", "\n", "\n\n", "\r\n", "-\n", "-\n  ", "-\r\n", " \n", "\v", "\f", "-\n\n", "- \n"}
 
 // synthText: words and separators rich in hyphen-newline joins, blank lines,
@@ -75,7 +113,11 @@ func synthText(r *rng, n int) []byte {
 		if r.chance(1, 12) {
 			sb.WriteString(r.pick([]string{"// ", "# ", " * ", "; ", "-- ", "> ", "| ", "% ", "/* ", "    "}))
 		}
-		sb.WriteString(r.pick(synthWords))
+		if r.chance(1, 10) {
+			sb.WriteString(entityWord(r))
+		} else {
+			sb.WriteString(r.pick(synthWords))
+		}
 		sb.WriteString(r.pick(synthSeps))
 		if r.chance(1, 25) {
 			sb.WriteString(r.pick([]string{"Copyright (c) 2020 Foo Bar\n", "copyright 1999, x\n", "  (c) Copyright [yyyy] name\n",
@@ -99,6 +141,10 @@ func hostileText(r *rng, n int) []byte {
 		case 3:
 			b = append(b, []byte(r.pick([]string{"&", "&#", "&#x", "&#xD800;", "&#0;", "&amp", "&amp;amp;", "&#1114112;", "&NotAnEntity;", "&#10;", "&Tab;", "&nbsp;"}))...)
 		case 4:
+			if r.chance(1, 2) {
+				b = append(b, []byte(entityWord(r))...)
+				break
+			}
 			b = append(b, []byte(r.pick([]string{"-\n", "-\n-\n", "a-\n", "-", "--\n", "a-\n\nb "}))...)
 		case 5:
 			b = append(b, '\n')
